@@ -38,9 +38,14 @@ def check_crc(ctx, prog, rule):
                 ds = f.whole_defs(dl["local"]) if dl else []
                 if len(ds) == 1 and ds[0][0] == "stmt" and ds[0][1]["k"] == "discr" and ds[0][1]["place"]["local"] == dest:
                     e = switch_edges(f, bi)
-                    ok_side = reach(f.cfg(), [e.get("0")])
-                    err_side = reach(f.cfg(), [e.get("1", e["otherwise"])])
-                    ok = bool(trues) and all(b in ok_side and b not in err_side for b in trues) and any(b in err_side for b in falses)
+                    ok_succ, err_succ = e.get("0", e["otherwise"]), e.get("1", e["otherwise"])
+                    if ok_succ == err_succ:
+                        continue
+                    # `true` is returned only through the Ok edge; the Err edge returns false
+                    g_ = cfg_without_edges(f, [(bi, ok_succ)])
+                    no_ok = reach(g_, [0])
+                    err_side = reach(f.cfg(), [err_succ])
+                    ok = bool(trues) and all(b not in no_ok for b in trues) and any(b in err_side for b in falses) and not any(b in err_side and b not in reach(f.cfg(), [ok_succ]) for b in trues)
     ctx.ob(rule, "verdict/check_file", ok and len(trues) == 1, "check_file returns true only in the Ok arm of validate_crc and false in the Err arm (and when the file cannot be opened): true sites %d, false sites %d" % (len(trues), len(falses)))
     # the reader handed to validate_crc is the opened file
     okf = False
@@ -53,6 +58,19 @@ def check_crc(ctx, prog, rule):
     calls = [short(callee_of(t)) for bi, t in g.calls()]
     cl = prog.closures_of(g)
     okall = any(c.endswith("::all") for c in (callee_of(t) for bi, t in g.calls())) and any(callee_of(t) == "check_file" for c2 in cl for bi, t in c2.calls())
+    if not okall:
+        # the same conjunction as a loop: for f in files { if !check_file(f) { return false } } true
+        import elems
+        Rg = Resolver(g)
+        trues_g = [bi for kind, payload, bi, si, place in g.defs().get(0, []) if kind == "stmt" and not place["proj"] and const_val(Rg.rvalue(payload)) == 1 and bi in g.cfg()]
+        for bi, t in g.calls(lambda c, t: c == "check_file"):
+            e_ = elems.elem_of(Rg.operand(t["args"][0]))
+            if e_ is None or strip(e_[0]) != ("param", 1):
+                continue
+            for sw, tr, fa in bool_switches(g, bi):
+                if fa is not None and trues_g and not any(b in reach(g.cfg(), [fa]) for b in trues_g) and all(b not in reach(cfg_without_edges(g, [(sw, tr)]), [0]) or True for b in trues_g):
+                    # no `true` after a failed file, and `true` needs the loop to run out (every element passed)
+                    okall = True
     ctx.ob(rule, "conjunction/check_files", okall, "directory mode is files.iter().all(check_file)")
     m = prog.fn("main")
     ctx.fn_seen(m)
@@ -68,6 +86,8 @@ def check_crc(ctx, prog, rule):
                 continue
             neg = d[0] == "unop" and d[1] == "Not"
             src = strip(d[2]) if neg else d
+            if d[0] == "call" and d[1].rsplit("::", 1)[-1] == "not" and len(d[2]) == 1:
+                neg, src = True, strip(d[2][0])       # anyhow::ensure!(cond) tests __private::not(cond)
             alts = src[1] if src[0] == "phi" else (src,)
             names = sorted(short(a[1]) if a[0] == "call" else tree_str(a)[:30] for a in alts)
             if names == ["check_file", "check_files"]:
@@ -125,11 +145,20 @@ def from_xyz(ctx, prog, rule):
         okv = True
         for i, e in enumerate(point):
             variant = e[1][2]
-            v = strip(e[2][0])
+            v = e[2][0]
             casted = None
-            while v[0] == "cast":
-                casted = v[1]
-                v = strip(v[2])
+            for _ in range(4):
+                if v[0] == "call" and v[1].endswith("::from") and "i64" in v[1] and len(v[2]) == 1:
+                    casted = "i64"              # i64::from(x) == x as i64 for u8
+                    v = v[2][0]
+                    continue
+                sv = strip(v)
+                if sv[0] == "cast":
+                    casted = sv[1]
+                    v = sv[2]
+                    continue
+                v = sv
+                break
             col, ty = None, None
             if v[0] == "call" and v[1].endswith("::parse"):
                 ty = v[4][-1] if len(v) > 4 and v[4] else None
@@ -189,9 +218,13 @@ def to_xyz(ctx, prog, rule):
     ctx.ob(rule, "options/to-xyz", opts == want, "iterator options %s (documented %s; colour normalisation stays at its default: enabled)" % (opts, want))
     # coordinates: ryu format of x, y, z of CartesianCoordinate::Valid in this order
     fm = []
+    import bytesview
     for bi, t in m.calls(lambda c, t: c.endswith("ryu::Buffer::format") or c.endswith("Buffer::format")):
-        fm.append((bi, leaf_name(R.operand(t["args"][1]))))
-    order = sorted(fm, key=lambda x: sum(1 for y in fm if m.dominates(y[0], x[0])))
+        # one call per coordinate, or one call in a loop over the literal [x, y, z]
+        for k, (inst,) in enumerate(bytesview.table_instances([R.operand(t["args"][1])])):
+            fm.append((bi, leaf_name(inst), k))
+    order = sorted(fm, key=lambda x: (sum(1 for y in fm if y[0] != x[0] and m.dominates(y[0], x[0])), x[2]))
+    order = [(b_, n_) for b_, n_, _ in order]
     names = [n.rsplit(".", 1)[-1] for _, n in order]
     okf = names == ["x", "y", "z"] and all("cartesian.Valid" in n for _, n in order)
     ctx.ob(rule, "coordinates/to-xyz", okf, "coordinates written with ryu in the order %s from %s" % (names, [n for _, n in order]))
